@@ -1,7 +1,10 @@
 #!/usr/bin/env python3
 """Run checks against a seeded breaking change.
 
-  tools/seedtest.py <seeded-dir> [--props C01,C04] [--tier quick] [--all]
+  tools/seedtest.py <seeded-dir> [--props C01,C04] [--tier quick] [--all] [--copy]
+
+--copy: apply the change to a scratch copy of /repo (under /var/tmp, removed afterwards) and run the checks
+with VERIF_REPO pointing at it, so that several changes can be tried side by side and /repo is not touched.
 
 Applies <seeded-dir>/patch.diff to /repo (git apply), runs ./check for the target property
 (meta.json "property"; --props overrides; --all = every property), prints which checks raised a
@@ -24,6 +27,38 @@ def sh(*a, **k):
     return subprocess.run(a, capture_output=True, text=True, **k)
 
 
+def run_on_copy(d, props, tier):
+    scratch = tempfile.mkdtemp(prefix="seedcopy-", dir="/var/tmp")
+    results = {}
+    try:
+        repo = os.path.join(scratch, "repo")
+        os.makedirs(repo)
+        sh("rsync", "-a", "--exclude", "_build", "--exclude", ".git", REPO + "/", repo + "/")
+        r = subprocess.run(["patch", "-p1", "-s", "-d", repo, "-i", os.path.join(d, "patch.diff")],
+                           capture_output=True, text=True)
+        if r.returncode:
+            print("patch does not apply:", r.stdout, r.stderr)
+            return 2
+        evid = os.path.join(scratch, "evidence")
+        env = dict(os.environ, VERIF_REPO=repo, VERIF_KEEP_OBJ="1", VERIF_EVIDENCE=evid)
+        for p in props:
+            t0 = time.time()
+            r = subprocess.run([os.path.join(ROOT, "check"), p, tier], capture_output=True, text=True, cwd=ROOT,
+                               timeout=3000, env=env)
+            viol = [ln for ln in r.stdout.splitlines() if ln.startswith("VIOLATION")]
+            results[p] = {"exit": r.returncode, "violations": len(viol), "first": viol[0][:300] if viol else "",
+                          "wall_s": round(time.time() - t0, 1)}
+            print("%s %s: exit=%d violations=%d %s" % (p, tier, r.returncode, len(viol),
+                                                        (viol[0][:200] if viol else r.stderr.strip().splitlines()[-1:][0][:200] if r.stderr.strip() else "")))
+    finally:
+        shutil.rmtree(scratch, ignore_errors=True)
+    out = os.path.join(d, "detected.json")
+    prev = json.load(open(out)) if os.path.exists(out) else {}
+    prev.setdefault(tier, {}).update(results)
+    json.dump(prev, open(out, "w"), indent=1)
+    return 0
+
+
 def main():
     d = os.path.abspath(sys.argv[1])
     args = sys.argv[2:]
@@ -36,6 +71,9 @@ def main():
         props = ALL
     if "--tier" in args:
         tier = args[args.index("--tier") + 1]
+    copy = "--copy" in args
+    if copy:
+        return run_on_copy(d, props, tier)
     st = sh("git", "-C", REPO, "status", "--porcelain", "--untracked-files=no").stdout.strip()
     if st:
         print("refusing: /repo has uncommitted changes:\n" + st)
